@@ -120,6 +120,25 @@ class Flip(AbstractBijection):
         return jnp.flip(y), jnp.array(0)
 
 
+def _bool_to_int_idxs(idxs):
+    """Convert boolean masks to the equivalent integer indices (``mask.nonzero()``).
+
+    Boolean indexing requires a concrete mask, so a mask stored as an array leaf would
+    fail whenever the bijection is traced (e.g. with jit, or inside Vmap/Scan).
+    """
+
+    def _convert(idx):
+        if isinstance(idx, Array | np.ndarray) and idx.dtype == bool:
+            return tuple(jnp.asarray(i) for i in np.nonzero(np.asarray(idx)))
+        return (idx,)
+
+    items = idxs if isinstance(idxs, tuple) else (idxs,)
+    converted = tuple(i for item in items for i in _convert(item))
+    if isinstance(idxs, tuple) or len(converted) != 1:
+        return converted
+    return converted[0]
+
+
 class Partial(AbstractBijection):
     """Applies bijection to specific indices of an input.
 
@@ -132,7 +151,7 @@ class Partial(AbstractBijection):
     """
 
     bijection: AbstractBijection
-    idxs: int | slice | Array | tuple
+    idxs: int | slice | Array | tuple = eqx.field(converter=_bool_to_int_idxs)
     shape: tuple[int, ...]
 
     def __check_init__(self):
